@@ -145,7 +145,9 @@ def _wrap(name, orig):
                     a = rec.ids_of(v)
                     call = {"op": "extend", "n": len(a)}
                 elif hasattr(v, "data") and isinstance(v.data, list):
-                    call = {"op": "extend_wrong"}
+                    call = {"op": "extend_wrong", "what": "object" if len(v.data) else "empty-object"}
+                elif isinstance(v, list) and any(type(o) is not type(self) for o in v):
+                    call = {"op": "extend_wrong", "what": "list-mixed"}
             elif name == "insert" and len(args) == 2 and _idx(args[0]) is not None:
                 k, a = rec.kind(self, args[1])
                 if k:
